@@ -43,11 +43,17 @@ for sid in seeds:
         own = meta['breaks_property']
         out[sid] = {'applies': True, 'property': own, 'fired': fired, 'constructs': constructs, 'analysis_error': errs,
                     'caught_by_own_check': own in fired, 'caught': bool(fired)}
+        if meta.get('obsolete_since_fix'):
+            # the change no longer breaks the property on the repaired tree: the expected verdict is silence
+            out[sid].update({'obsolete': True, 'silent_as_expected': not fired and not errs})
         print(f"{sid}: own={'yes' if own in fired else 'NO '} fired={ {p: ','.join(r) for p, r in fired.items()} } errors={errs}")
     finally:
         subprocess.run(['git', '-C', '/repo', 'worktree', 'remove', '--force', wt])
         shutil.rmtree(ev, ignore_errors=True)
     json.dump(out, open(mpath, 'w'), indent=1, sort_keys=True)
-n = sum(1 for v in out.values() if v.get('caught'))
-print(f'{n}/{len(out)} seeded changes reported by at least one check; '
-      f"{sum(1 for v in out.values() if v.get('caught_by_own_check'))} by the check of the property they were written against")
+live = {k: v for k, v in out.items() if not v.get('obsolete')}
+n = sum(1 for v in live.values() if v.get('caught'))
+print(f'{n}/{len(live)} seeded changes reported by at least one check; '
+      f"{sum(1 for v in live.values() if v.get('caught_by_own_check'))} by the check of the property they were written against"
+      + (f"; {len(out) - len(live)} obsolete after a repair (expected silent: "
+         f"{sum(1 for v in out.values() if v.get('silent_as_expected'))})" if len(out) != len(live) else ''))
